@@ -293,7 +293,7 @@ def bounded_generated_sets(pid, tier, seed):
     # several conditions per filter (anyof / allof) and several filters with different extensions, edited afterwards
     from sievelib.factory import FiltersSet
     cf = [c for k, c in condition_forms(BENIGN) if k not in ("header-name",)]
-    af = [a for k, a in action_forms(BENIGN) if k not in ("keep-flags",)]
+    af = [a for k, a in action_forms(BENIGN) if k not in ()]
     for i in range(len(cf)):
         for n in (2, 3):
             for mt in ("anyof", "allof"):
@@ -428,7 +428,7 @@ def bounded_saveload(pid, tier, seed):
     descs = [None, "", "a description", "déjà vu", "with # hash", "colon: inside", "see # Description: there", "d #D=e # desc: f"]
     markers = [("# Filter: ", "# Description: "), ("# rule:", "# desc:"), ("#N=", "#D="), ("# [filter] ", "# (desc) "), ("# name? ", "# note+ ")]
     conds = [c for k, c in condition_forms("v") if k not in ("header-name",)]
-    acts = [a for k, a in action_forms("v") if k not in ("keep-flags",)]
+    acts = [a for k, a in action_forms("v") if k not in ()]
     n_seq = 150 if tier == "quick" else 1500
     # exhaustive part: every sequence of 3 operations (after adding two filters) over two names
     small_ops = [(o, n) for o in ("disable", "enable", "update-same", "update-rename", "move", "remove", "replace") for n in ("a", "b b")]
